@@ -4,7 +4,7 @@
    produced by any matcher/option.  Integers are unbounded: after the widening repair the code never
    computes a label in a fixed width, so the statements hold for every dtype and instance count. *)
 From Pan Require Import Base.Common Model.Metrics Model.Relabel Proofs.RelabelFacts Proofs.C04Proofs.
-From Pan Require Import Proofs.RelabelSeq.
+From Pan Require Import Proofs.RelabelSeq Proofs.FreshStart.
 Open Scope Z_scope.
 
 Definition lm_of (M : lmap) (a : arr2) : lmap := full_map M (pred_labels_of a) (maxZ (ref_labels_of a)).
@@ -53,3 +53,19 @@ Theorem C04_sequential_relabelling_refuted_on_chains :
   relabel lm a = [(7, 7); (9, 9)] /\ relabel_seq lm a = [(7, 9); (9, 9)].
 Proof. exact relabel_seq_chain_differs. Qed.
 
+
+(* ---- where the fresh labels may start: ANY start at or above the largest reference label keeps the unmatched predictions apart from
+   every reference label; the number of reference labels is such a start only when no label exceeds it (labels 1..n), and is refuted on
+   the reference labels {1, 3}, where the unmatched prediction receives the reference label 3 *)
+Theorem C04_any_start_above_the_largest_reference_label_is_fresh : forall M a s v r,
+  (forall r', In r' (ref_labels_of a) -> r' <= s) ->
+  In v a -> snd v <> 0 -> has_key (snd v) M = false -> In r (ref_labels_of a) ->
+  new_label (full_map M (pred_labels_of a) s) (snd v) <> r.
+Proof. exact fresh_start_safe. Qed.
+
+Theorem C04_start_at_the_reference_count_refuted :
+  let a : arr2 := [(1, 1); (3, 3); (0, 9)] in let M : lmap := [(1, 1); (3, 3)] in
+  new_label (full_map M (pred_labels_of a) (Z.of_nat (length (ref_labels_of a)))) 9 = 3 /\
+  In 3 (ref_labels_of a) /\
+  new_label (full_map M (pred_labels_of a) (maxZ (ref_labels_of a))) 9 = 4.
+Proof. exact fresh_start_count_refuted. Qed.
